@@ -46,8 +46,14 @@ def get_ex(target, mode, tier):
         spec = _G.get('spec')
         if spec is None:
             spec = _G['spec'] = Spec(prog)
-        con = spec.sf.contracts[target]
-        ex = verify.run_contract(prog, spec, con, mode, {'tier': tier})
+        if target.startswith('lemma:'):
+            lem = [l for l in spec.sf.lemmas if (l.label or str(l.line)) == target[6:]][0]
+            ex = verify.verify_lemma(prog, spec, lem, {'tier': tier})
+            con = lem
+            con.fn = 'lemma:' + target[6:]
+        else:
+            con = spec.sf.contracts[target]
+            ex = verify.run_contract(prog, spec, con, mode, {'tier': tier})
         _EXCACHE[key] = (ex, spec, con)
     return _EXCACHE[key]
 
